@@ -1532,7 +1532,9 @@ func (f *File) WriteTo(w io.Writer) (written int64, err error) {
 
 						} else {
 							l, data := unmarshalUint32(data)
-							b = pool.Get()[:l]
+							// A server may send more data than was requested:
+							// never take more than the buffer holds.
+							b = pool.Get()
 							n = copy(b, data[:l])
 							b = b[:n]
 						}
